@@ -247,6 +247,12 @@ def report(prop, tier, seed, t0, contracts, results, lemma_recs, validations, sp
         else:
             rp["note"] = "not replayed: replay budget of this run used by earlier failed obligations"
         rp["failing_input_found"] = confirmed
+        if o.get("bounded") and not confirmed:
+            # found on a bounded unrolling and not reproduced on the real code: undecided, not a violation
+            rp["note"] = "obligation failed on a bounded unrolling (" + o["bounded"] + ") and no failing input was reproduced: undecided"
+            o["verdict"] = "unknown"
+            json.dump(rp, open(path, "w"), indent=1)
+            continue
         json.dump(rp, open(path, "w"), indent=1)
         if k is not None:
             known_hits.append((k, o))
